@@ -251,6 +251,15 @@ def load_known():
 # the check
 # ------------------------------------------------------------------------------------------------
 
+def kind_of(why):
+    """the kind of an oracle failure: the text before the first ':', or `Cxx:what` for the oracles of harness/oracles.py
+    (whose kinds all start with the property id)"""
+    parts = str(why).split(":")
+    if len(parts) >= 2 and re.fullmatch(r"C\d\d", parts[0].strip()):
+        return parts[0].strip() + ":" + parts[1].strip()
+    return parts[0]
+
+
 def canon_json(x):
     return json.dumps(x, sort_keys=True, ensure_ascii=False, separators=(",", ":"))
 
@@ -457,8 +466,8 @@ class Check:
         reported = set()
         for suite, c, r, why, agree in new_fail:
             # shrink
-            c2, r2, why2 = self.shrink(suite, c, r, why)
-            sig = (suite.name, why2.split(":")[0][:60])
+            c2, r2, why2 = self.shrink(suite, c, r, why, known_ids=known_ids)
+            sig = (suite.name, kind_of(why2)[:80])
             if sig in reported:
                 continue
             reported.add(sig)
@@ -484,7 +493,9 @@ class Check:
         cov["correspondence_breaks"] = len(corr_breaks)
         cov["oracle_failures_new"] = len(new_fail)
 
-    def shrink(self, suite, c, r, why, budget=300):
+    def shrink(self, suite, c, r, why, budget=300, known_ids=()):
+        """smaller case with the same KIND of failure that is still not a listed finding (a shrink step must never
+        drift from a new violation onto a known one: the replay would then be silent)"""
         cur, cur_r, cur_why = c, r, why
         progress = True
         n = 0
@@ -499,7 +510,12 @@ class Check:
                     w = suite.oracle(cand, rr)
                 except Exception:
                     w = None
-                if w and w.split(":")[0] == cur_why.split(":")[0]:
+                if w and kind_of(w) == kind_of(cur_why):
+                    try:
+                        if suite.finding(cand, rr, w) in known_ids:
+                            continue
+                    except Exception:
+                        pass
                     cur, cur_r, cur_why = cand, rr, w
                     progress = True
                     break
